@@ -30,7 +30,7 @@ func Main(prop string, gen func(r *vh.Rand, i int) *Scenario, probes func() []*S
 	ident := map[string]string{}
 	if f.Replay != "" {
 		// replay: the last field of the case line is <seed>:<index> (or probe:<name>)
-		fs := strings.Split(f.Replay, "\t")
+		fs := strings.Fields(f.Replay) // recorded case lines have their tabs replaced by blanks
 		id := fs[len(fs)-1]
 		if strings.HasPrefix(id, "probe:") {
 			for _, p := range probes() {
